@@ -39,14 +39,14 @@ Definition nl_st (st : tstate) : bool := match st with LISTEN | SYN_SENT => fals
 
 Definition same_rcv (s s' : sock) : Prop :=
   rbuf s' = rbuf s /\ rcv_nxt s' = rcv_nxt s /\ rlist s' = rlist s /\ rcv_fin s' = rcv_fin s /\
-  support_fin_ack s' = support_fin_ack s /\ rwnd_scale s' = rwnd_scale s /\
+  support_fin_ack s' = support_fin_ack s /\ rwnd_scale s' = rwnd_scale s /\ rbuf_len s' = rbuf_len s /\
   (shutdown s <> SD_NONE -> shutdown s' <> SD_NONE) /\
   (pre_st (state s) = true -> pre_st (state s') = true) /\ (nl_st (state s) = true -> nl_st (state s') = true).
 
 Lemma same_rcv_refl s : same_rcv s s. Proof. unfold same_rcv. repeat split; auto. Qed.
 Lemma same_rcv_trans a b c : same_rcv a b -> same_rcv b c -> same_rcv a c.
 Proof.
-  unfold same_rcv. intros (A1 & A2 & A3 & A4 & A5 & A6 & A7 & A8 & A9) (B1 & B2 & B3 & B4 & B5 & B6 & B7 & B8 & B9).
+  unfold same_rcv. intros (A1 & A2 & A3 & A4 & A5 & A6 & A0 & A7 & A8 & A9) (B1 & B2 & B3 & B4 & B5 & B6 & B0 & B7 & B8 & B9).
   repeat split; try congruence; auto.
 Qed.
 
@@ -59,6 +59,7 @@ Proof. intros Hm Hf. eapply wp_bind_spec; [apply Hm|exact Hf]. Qed.
 Ltac rsame_triv :=
   solve [unfold same_rcv; cbn; repeat split; try reflexivity; try (intros; assumption); try discriminate; auto].
 Ltac rfr_chain :=
+  lazymatch goal with |- same_rcv _ _ => idtac end;
   repeat match goal with H : same_rcv ?a ?c |- same_rcv ?a _ => eapply same_rcv_trans; [exact H|]; clear H end;
   first [ apply same_rcv_refl | rsame_triv | eapply same_rcv_trans; [|eassumption]; rsame_triv | idtac ].
 Ltac rfr_call L := eapply wp_bind_rfr; [apply L; try discriminate|intros ? ? ? ?].
@@ -137,7 +138,7 @@ Proof.
   wp_prims. destruct (nth_error _ _); [|apply wp_fault]. wp_prims.
   rfr_call packet_rframes. destruct a; wp_prims; try rfr_chain.
   pose proof (shrink_mss_rsame 12 s1 nT) as Hs. destruct (shrink_mss 12 s1 nT) as [s2 [m|]]; cbn [fst] in Hs; wp_prims.
-  - eapply wp_conseq; [apply IH|]. cbv beta. intros _ s3 _ F3. rfr_chain. eapply same_rcv_trans; eauto.
+  - eapply wp_conseq; [apply IH|]. cbv beta. intros _ s3 _ F3. rfr_chain.
   - rfr_chain.
 Qed.
 
@@ -147,6 +148,598 @@ Proof.
   destruct (_ >=? _); [wp_prims; apply same_rcv_refl|].
   rfr_call transmit_loop_rframes. destruct a as [status nT]. destruct (negb (status =? 0)); [wp_prims; rfr_chain|]. wp_prims.
   match goal with |- wp (bind ?m _) _ _ _ => set (chk := m) end.
-  assert (Hchk : rframes chk) by (intros s' ev'; unfold chk; destruct (_ =? 0); wp_prims; apply same_rcv_refl).
-  rfr_call Hchk. wp_prims. rfr_chain. eapply same_rcv_trans; [exact H|]. eapply same_rcv_trans; [|exact H0]. apply same_rcv_refl.
+  assert (Hchk : forall Q : unit -> sock -> list event -> Prop, Q tt s1 ev1 -> wp chk s1 ev1 Q).
+  { intros Q HQ. unfold chk. destruct (_ =? 0); wp_prims; exact HQ. }
+  eapply wp_bind_spec; [apply (Hchk (fun _ s' ev' => s' = s1 /\ ev' = ev1)); split; reflexivity|]. cbv beta. intros _ s2 ev2 (-> & ->).
+  wp_prims. rfr_chain.
 Qed.
+
+Lemma attempt_send_loop_rframes fuel : forall sflags now, rframes (attempt_send_loop fuel sflags now).
+Proof.
+  induction fuel as [|f IH]; intros sflags now s ev; cbn [attempt_send_loop]; [apply wp_fault|].
+  wp_prims.
+  destruct (sf_eqb sflags sfDuplicateAck).
+  { rfr_call packet_rframes. eapply wp_conseq; [apply IH|]. cbv beta. intros; rfr_chain. }
+  match goal with |- context [if ?a >? ?u then (if ?c then 0 else ?u) else ?a] =>
+    set (nAvailable := if a >? u then (if c then 0 else u) else a) in * end.
+  clearbody nAvailable.
+  destruct ((nAvailable =? 0) && _).
+  { destruct (sf_eqb sflags sfNone); [wp_prims; apply same_rcv_refl|].
+    destruct (_ || _).
+    - rfr_call packet_rframes. wp_prims. rfr_chain.
+    - wp_prims. rsame_triv. }
+  destruct (use_nagling s && _ && _ && _); [wp_prims; apply same_rcv_refl|].
+  destruct (first_unsent (slist s) 0) as [i|]; [|wp_prims; apply same_rcv_refl].
+  destruct (nth_error (slist s) i) as [g|] eqn:N; [|apply wp_fault].
+  match goal with |- wp (bind ?m _) _ _ _ => set (spl := m) end.
+  assert (Hspl : wp spl s ev (fun _ s' _ => same_rcv s s')).
+  { unfold spl. destruct (_ && _); wp_prims; [rsame_triv|apply same_rcv_refl]. }
+  eapply wp_bind_spec; [exact Hspl|]. cbv beta. intros _ s1 ev1 F1.
+  rfr_call transmit_rframes.
+  destruct (negb (a =? 0)).
+  - eapply wp_conseq; [apply closedown_remote_rframes|]. cbv beta. intros; rfr_chain.
+  - eapply wp_conseq; [apply IH|]. cbv beta. intros; rfr_chain.
+Qed.
+
+Lemma attempt_send_rframes sflags now : rframes (attempt_send sflags now).
+Proof.
+  intros s ev. unfold attempt_send. wp_prims.
+  apply wp_bind_when; intros _; wp_prims.
+  - eapply wp_conseq; [apply attempt_send_loop_rframes|]. cbv beta. intros. eapply same_rcv_trans; [|eassumption]. rsame_triv.
+  - apply attempt_send_loop_rframes.
+Qed.
+
+Lemma set_state_post n s ev : wp (set_state n) s ev (fun _ s' _ => state s' = n).
+Proof.
+  unfold set_state. wp_prims. destruct (st_eqb (state s) n) eqn:E; wp_prims; [apply st_eqb_eq; exact E|reflexivity].
+Qed.
+
+Lemma set_state_closed_post err s ev : wp (set_state_closed err) s ev (fun _ s' _ => state s' = CLOSED).
+Proof.
+  unfold set_state_closed. eapply wp_bind_spec; [apply set_state_post|]. cbv beta. intros _ s1 ev1 E.
+  apply wp_when; intros _; [wp_prims|]; exact E.
+Qed.
+
+Lemma closedown_rspec err local now s ev :
+  wp (closedown err local now) s ev (fun _ s' _ => same_rcv s s' /\ state s' = CLOSED).
+Proof.
+  unfold closedown. wp_prims.
+  match goal with |- wp (bind ?m _) _ _ _ => set (pre := m) end.
+  assert (Hpre : wp pre s ev (fun _ s' _ => same_rcv s s')).
+  { unfold pre. destruct (local && support_fin_ack s).
+    - rfr_call queue_rst_rframes. eapply wp_conseq; [apply attempt_send_rframes|]. cbv beta. intros; rfr_chain.
+    - destruct local; wp_prims; [rsame_triv|apply same_rcv_refl]. }
+  eapply wp_bind_spec; [exact Hpre|]. cbv beta. intros _ s1 ev1 F1.
+  rfr_call closedown_states_rframes.
+  eapply wp_conseq; [apply wp_and; [apply set_state_closed_rframes|apply set_state_closed_post]|].
+  cbv beta. intros _ s3 ev3 (F3 & E). split; [rfr_chain|exact E].
+Qed.
+
+(** ---- options of the connect message ---- *)
+Fixpoint ao_res (fuel : nat) (d : bytes) : bool * bool :=   (* (walk completed, a FIN-ACK option was applied) *)
+  match fuel with
+  | O => (true, false)
+  | S f =>
+    match d with
+    | [] => (true, false)
+    | kind :: d1 =>
+      if kind =? 0 then (true, false) else
+      if kind =? 1 then ao_res f d1 else
+      match d1 with
+      | [] => (false, false)
+      | ol :: d2 => if len d2 <? ol then (false, false) else
+                    let r := ao_res f (skipn (Z.to_nat ol) d2) in (fst r, (kind =? 254) || snd r)
+      end
+    end
+  end.
+
+Definition same_rcv0 (s s' : sock) : Prop :=
+  rbuf s' = rbuf s /\ rcv_nxt s' = rcv_nxt s /\ rlist s' = rlist s /\ rcv_fin s' = rcv_fin s /\
+  rwnd_scale s' = rwnd_scale s /\ rbuf_len s' = rbuf_len s /\ shutdown s' = shutdown s /\ state s' = state s.
+
+Lemma same_rcv0_refl s : same_rcv0 s s. Proof. unfold same_rcv0. repeat split; auto. Qed.
+Lemma same_rcv0_trans a b c : same_rcv0 a b -> same_rcv0 b c -> same_rcv0 a c.
+Proof. unfold same_rcv0. intuition congruence. Qed.
+Lemma same_rcv_of0 s s' : same_rcv0 s s' -> support_fin_ack s' = support_fin_ack s -> same_rcv s s'.
+Proof. unfold same_rcv0, same_rcv. intros (A1 & A2 & A3 & A4 & A5 & A6 & A7 & A8) E. rewrite A7, A8. repeat split; auto. Qed.
+
+Lemma apply_opts_rspec fuel : forall d s ev,
+  wp (apply_opts fuel d) s ev (fun c s' _ => c = fst (ao_res fuel d) /\ same_rcv0 s s' /\
+                                             support_fin_ack s' = support_fin_ack s || snd (ao_res fuel d)).
+Proof.
+  induction fuel as [|f IH]; intros d s ev; cbn [apply_opts ao_res].
+  { wp_prims. cbn. rewrite orb_false_r. split; [reflexivity|]. split; [apply same_rcv0_refl|reflexivity]. }
+  assert (Hstop : forall c : bool, wp (ret c) s ev (fun c' s' _ => c' = fst (c, false) /\ same_rcv0 s s' /\ support_fin_ack s' = support_fin_ack s || snd (c, false))).
+  { intros c. wp_prims. cbn. rewrite orb_false_r. split; [reflexivity|]. split; [apply same_rcv0_refl|reflexivity]. }
+  destruct d as [|kind d1]; [apply Hstop|].
+  destruct (kind =? 0); [apply Hstop|]. destruct (kind =? 1); [apply IH|].
+  destruct d1 as [|ol d2]; [apply Hstop|]. destruct (len d2 <? ol); [apply Hstop|].
+  cbn [fst snd].
+  apply wp_bind_when; intros E1; wp_prims; (apply wp_bind_when; intros E2; wp_prims);
+    (eapply wp_conseq; [apply IH|]; cbv beta; intros c s' _ (Hc & F & Hv); split; [exact Hc|]; split;
+     [eapply same_rcv0_trans; [|exact F]; unfold same_rcv0; cbn; repeat split; reflexivity|]);
+    rewrite Hv; cbn [support_fin_ack set]; rewrite ?E2; cbn; try reflexivity.
+  - rewrite orb_true_r. reflexivity.
+  - rewrite orb_true_r. reflexivity.
+Qed.
+
+Fixpoint rscale (fuel : nat) (sz sf : Z) : Z * Z :=
+  match fuel with O => (sz, sf) | S f => if sz >? 65535 then rscale f (sz / 2) (sf + 1) else (sz, sf) end.
+
+Definition resized (nsz sf : Z) (s s' : sock) : Prop :=
+  rbuf s' = (rbuf s) <| rb_cap := nsz |> <| rb_fut := [] |> /\ rb_n (rbuf s) <= nsz /\
+  rcv_nxt s' = rcv_nxt s /\ rlist s' = rlist s /\ rcv_fin s' = rcv_fin s /\ shutdown s' = shutdown s /\ state s' = state s /\
+  rwnd_scale s' = sf mod 256 /\ rbuf_len s' = nsz.
+
+Lemma resize_rspec n s ev :
+  wp (resize_receive_buffer n) s ev (fun _ s' _ =>
+    (s' = s /\ (rbuf_len s = n \/ let '(sz, sf) := rscale 33 n 0 in w32 (sz * 2 ^ sf) < rb_n (rbuf s))) \/
+    (rbuf_len s <> n /\ support_fin_ack s' = support_fin_ack s /\ let '(sz, sf) := rscale 33 n 0 in resized (w32 (sz * 2 ^ sf)) sf s s')).
+Proof.
+  unfold resize_receive_buffer. wp_prims. destruct (rbuf_len s =? n) eqn:E; [wp_prims; left; split; [reflexivity|left; lia]|].
+  match goal with |- context [let '(sz, sf) := ?e in _] => change e with (rscale 33 n 0) end.
+  destruct (rscale 33 n 0) as [sz sf].
+  destruct (negb (rb_buffered s <=? w32 (sz * 2 ^ sf))) eqn:Efit; wp_prims; [left; split; [reflexivity|right; unfold rb_buffered in Efit; lia]|].
+  right. split; [lia|]. split; [reflexivity|].
+  unfold resized, rb_buffered in *; cbn. repeat split; try reflexivity. lia.
+Qed.
+
+Definition Gopt (d : bytes) (v : bool) : bool :=
+  let r := ao_res (S (length d)) d in
+  if fst r then match parse_opts (S (length d)) d false false None with
+                | None => v || snd r
+                | Some (_, hf, _) => if hf then v || snd r else false
+                end
+  else v || snd r.
+Definition resizes (d : bytes) : bool :=
+  fst (ao_res (S (length d)) d) &&
+  match parse_opts (S (length d)) d false false None with Some (hw, _, _) => negb hw | None => false end.
+(* the connect message does not (any longer) make the socket resize its receive buffer *)
+Definition NR (d : bytes) (s : sock) : Prop := resizes d = false \/ rwnd_scale s <= 0 \/ rbuf_len s = 61440.
+
+Lemma Gopt_idem d v : Gopt d (Gopt d v) = Gopt d v.
+Proof.
+  unfold Gopt. destruct (fst _); [destruct (parse_opts _ _ _ _ _) as [[[hw hf] sc]|]; [destruct hf|]|];
+    try reflexivity; destruct v, (snd _); reflexivity.
+Qed.
+
+Lemma parse_options_rspec d s ev :
+  wp (parse_options d) s ev (fun _ s' _ =>
+    support_fin_ack s' = Gopt d (support_fin_ack s) /\ (NR d s' \/ 61440 < rb_n (rbuf s)) /\
+    (same_rcv0 s s' \/ (~ NR d s /\ resized 61440 0 s s'))).
+Proof.
+  unfold parse_options. eapply wp_bind_spec; [apply apply_opts_rspec|]. cbv beta. intros c s1 ev1 (Hc & F1 & Hv).
+  unfold Gopt, NR, resizes. rewrite <- Hc.
+  destruct c; cbn [negb andb].
+  2:{ wp_prims. split; [exact Hv|]. split; [left; left; reflexivity|left; exact F1]. }
+  destruct (parse_opts _ _ _ _ _) as [[[hw hf] sc]|].
+  2:{ wp_prims. split; [exact Hv|]. split; [left; left; reflexivity|left; exact F1]. }
+  wp_prims.
+  assert (Hrw : rwnd_scale s1 = rwnd_scale s) by apply F1. assert (Hrl : rbuf_len s1 = rbuf_len s) by apply F1.
+  assert (Hrb : rbuf s1 = rbuf s) by apply F1.
+  assert (Hsame : forall s2 : sock, same_rcv0 s1 s2 -> same_rcv0 s s2) by (intros s2; apply same_rcv0_trans; exact F1).
+  destruct (negb hw && (rwnd_scale s1 >? 0)) eqn:E.
+  - apply wp_bind_assoc. eapply wp_bind_spec; [apply resize_rspec|]. cbv beta. intros _ s2 ev2 H2. wp_prims.
+    apply andb_prop in E. destruct E as (Ehw & Esc). rewrite Ehw.
+    destruct H2 as [(-> & Hl)|(Hl & Hsfa & Hr)].
+    + assert (Hnr : (true = false \/ rwnd_scale s1 <= 0 \/ rbuf_len s1 = 61440) \/ 61440 < rb_n (rbuf s)).
+      { destruct Hl as [Hl|Hl]; [left; right; right; exact Hl|right].
+        change (rscale 33 61440 0) with (61440, 0) in Hl. cbv iota beta in Hl.
+        assert (Ew : w32 (61440 * 2 ^ 0) = 61440) by reflexivity. rewrite Ew, Hrb in Hl. exact Hl. }
+      apply wp_when; intros Ehf; wp_prims; cbn [support_fin_ack rwnd_scale rbuf_len set].
+      * destruct hf; [discriminate|]. split; [reflexivity|]. split; [exact Hnr|].
+        left. apply Hsame. unfold same_rcv0; cbn; repeat split; reflexivity.
+      * destruct hf; [|discriminate]. split; [exact Hv|]. split; [exact Hnr|].
+        left. apply Hsame. unfold same_rcv0; cbn; repeat split; reflexivity.
+    + change (rscale 33 61440 0) with (61440, 0) in Hr. cbv iota beta in Hr.
+      assert (Ew : w32 (61440 * 2 ^ 0) = 61440) by reflexivity. rewrite Ew in Hr. clear Ew.
+      assert (Hres : resized 61440 0 s (s2 <| swnd_scale := 0 |>)).
+      { destruct Hr as (R1 & R2 & R3 & R4 & R5 & R6 & R7 & R9 & R10).
+        destruct F1 as (A1 & A2 & A3 & A4 & A5 & A6 & A7 & A8).
+        cbn in R9. rewrite A1 in R1, R2. unfold resized; cbn. repeat split; try congruence; try lia. }
+      assert (Hnr : ~ (true = false \/ rwnd_scale s <= 0 \/ rbuf_len s = 61440)) by (intros [X|[X|X]]; [discriminate|lia|congruence]).
+      assert (Hnr' : forall x : sock, rwnd_scale x = rwnd_scale s2 -> (true = false \/ rwnd_scale x <= 0 \/ rbuf_len x = 61440) \/ 61440 < rb_n (rbuf s)).
+      { intros x Hx. left; right; left. rewrite Hx. destruct Hr as (_ & _ & _ & _ & _ & _ & _ & R9 & _). rewrite R9; cbn; lia. }
+      apply wp_when; intros Ehf; wp_prims; cbn [support_fin_ack set].
+      * destruct hf; [discriminate|]. split; [reflexivity|]. split; [apply Hnr'; reflexivity|].
+        right. split; [exact Hnr|]. destruct Hres as (R1 & R2 & R3 & R4 & R5 & R6 & R7 & R9 & R10). unfold resized; cbn. repeat split; assumption.
+      * destruct hf; [|discriminate]. split; [rewrite Hsfa; exact Hv|]. split; [apply Hnr'; reflexivity|].
+        right. split; [exact Hnr|exact Hres].
+  - wp_prims. assert (Hnr : (negb hw = false \/ rwnd_scale s1 <= 0 \/ rbuf_len s1 = 61440) \/ 61440 < rb_n (rbuf s)).
+    { left. destruct (negb hw); [right; left; cbn in E; lia|left; reflexivity]. }
+    apply wp_when; intros Ehf; wp_prims; cbn [support_fin_ack rwnd_scale rbuf_len set].
+    + destruct hf; [discriminate|]. split; [reflexivity|]. split; [exact Hnr|].
+      left. apply Hsame. unfold same_rcv0; cbn; repeat split; reflexivity.
+    + destruct hf; [|discriminate]. split; [exact Hv|]. split; [exact Hnr|left; exact F1].
+Qed.
+
+(** ---- the receive FIFO against the peer's stream ---- *)
+Section Stream.
+Variable S : bytes.      (* everything the peer queued: its connect message, then its application's bytes *)
+Variable cl : Z.         (* length of the connect message *)
+Definition Wof : bytes := skipn (Z.to_nat cl) S.
+Definition Oof : bytes := tl (firstn (Z.to_nat cl) S).
+Hypothesis Hcl : 0 <= cl <= len S.
+
+Lemma len_Wof : len Wof = len S - cl.
+Proof. unfold Wof, len in *. rewrite skipn_length. lia. Qed.
+
+Lemma consistent_slice q n : cl <= q -> 0 <= n -> q + n <= len S -> consistent Wof (q - cl, sub S q n).
+Proof.
+  intros H1 H2 H3. unfold consistent; cbn [fst snd].
+  assert (Hl : len (sub S q n) = n) by (apply len_sub_exact; lia).
+  split; [lia|]. split; [rewrite Hl, len_Wof; lia|].
+  intros j Hj. unfold len in Hl. assert (Hjn : (j < Z.to_nat n)%nat) by lia.
+  unfold sub, Wof. rewrite nth_firstn_lt by exact Hjn. rewrite !nth_skipn_plus. f_equal. lia.
+Qed.
+
+Definition rl_ok (total : Z) (fut : list (Z * bytes)) (r : rseg) : Prop :=
+  cl <= rs_seq r /\ 0 <= rs_len r /\ rs_seq r + rs_len r <= len S /\
+  forall p, total <= p -> rs_seq r - cl <= p -> p < rs_seq r + rs_len r - cl -> coveredb fut p = true.
+
+Definition data_ok (pos : Z) (f : rfifo) (rl : list rseg) (R : bytes) : Prop :=
+  rb_total f = pos - cl /\ R ++ rb_data f = firstn (Z.to_nat (pos - cl)) Wof /\ Forall (consistent Wof) (rb_fut f) /\
+  Forall (rl_ok (pos - cl) (rb_fut f)) rl /\ rb_n f = len (rb_data f) /\ rb_n f <= rb_cap f.
+
+Lemma firstn_plus_skipn {A} (l : list A) a b : firstn a l ++ firstn b (skipn a l) = firstn (a + b) l.
+Proof.
+  revert l; induction a as [|a IH]; intros l; [reflexivity|]. destruct l as [|x l]; [cbn; rewrite firstn_nil; reflexivity|].
+  cbn [firstn skipn plus app]. f_equal. apply IH.
+Qed.
+
+Lemma coveredb_cons e fut p : coveredb fut p = true -> coveredb (e :: fut) p = true.
+Proof. unfold coveredb. cbn [existsb]. intros ->. apply orb_true_r. Qed.
+
+Lemma coveredb_filter fut t p : t <= p -> coveredb fut p = true ->
+  coveredb (filter (fun e => t <? fst e + len (snd e)) fut) p = true.
+Proof.
+  intros Hp. unfold coveredb. rewrite !existsb_exists. intros (e & Hin & He). exists e. split; [|exact He].
+  apply filter_In. split; [exact Hin|]. lia.
+Qed.
+
+Lemma Forall_filter {A} (P : A -> Prop) f l : Forall P l -> Forall P (filter f l).
+Proof. rewrite !Forall_forall. intros H x Hx. apply filter_In in Hx. apply H, Hx. Qed.
+
+(* committing [n] covered bytes at [pos] *)
+Lemma data_ok_commit pos f rl R n f2 :
+  data_ok pos f rl R -> cl <= pos -> 0 <= n -> pos + n <= len S ->
+  (forall i, (i < Z.to_nat n)%nat -> coveredb (rb_fut f) (pos - cl + Z.of_nat i) = true) ->
+  rb_commit f n = Ok f2 -> data_ok (pos + n) f2 rl R /\ rb_cap f2 = rb_cap f.
+Proof.
+  intros (H1 & H2 & H3 & H4 & H5 & H6) Hp Hn Hfit Hcov Hc.
+  assert (Hd : rb_data f2 = rb_data f ++ firstn (Z.to_nat n) (skipn (Z.to_nat (rb_total f)) Wof) /\ rb_total f2 = rb_total f + n).
+  { apply (rb_commit_appends_stream Wof f n f2); try assumption; try lia.
+    - rewrite len_Wof. lia.
+    - rewrite H1. exact Hcov. }
+  destruct Hd as (Hd & Ht).
+  unfold rb_commit in Hc. destruct (rb_cap f - rb_n f <? n) eqn:E; [discriminate|]. injection Hc as Hc.
+  assert (Hfut : rb_fut f2 = filter (fun e => rb_total f + n <? fst e + len (snd e)) (rb_fut f)) by (rewrite <- Hc; reflexivity).
+  assert (Hn2 : rb_n f2 = rb_n f + n) by (rewrite <- Hc; reflexivity).
+  assert (Hcap : rb_cap f2 = rb_cap f) by (rewrite <- Hc; reflexivity).
+  split; [|exact Hcap]. unfold data_ok. split; [lia|]. split.
+  { rewrite Hd, app_assoc, H2, H1, firstn_plus_skipn. f_equal. lia. }
+  split; [rewrite Hfut; apply Forall_filter; exact H3|]. split.
+  { rewrite Hfut. rewrite Forall_forall in *. intros r Hr. destruct (H4 r Hr) as (A1 & A2 & A3 & A4).
+    repeat split; try assumption. intros p P1 P2 P3. apply coveredb_filter; [lia|]. apply A4; lia. }
+  split; [|lia]. rewrite Hn2, Hd, len_app, H5. f_equal.
+  unfold len. rewrite firstn_length, skipn_length. pose proof len_Wof as LW. unfold len in *. lia.
+Qed.
+
+(* storing an honest slice that starts at or after [pos] *)
+Lemma data_ok_write pos f rl R q n f1 res :
+  data_ok pos f rl R -> cl <= pos <= q -> 0 < n -> q + n <= len S ->
+  rb_write_offset f (sub S q n) (q - pos) = (f1, res) -> res = n ->
+  data_ok pos f1 rl R /\ rb_fut f1 = (q - cl, sub S q n) :: rb_fut f /\ rb_cap f1 = rb_cap f.
+Proof.
+  intros (H1 & H2 & H3 & H4 & H5 & H6) Hp Hn Hfit Hw Hres.
+  assert (Hl : len (sub S q n) = n) by (apply len_sub_exact; lia).
+  unfold rb_write_offset in Hw. destruct (rb_cap f <=? rb_n f + (q - pos)); [injection Hw as <- <-; lia|].
+  injection Hw as <- <-. rewrite Hl in Hres.
+  assert (Hcopy : firstn (Z.to_nat (Z.min n (rb_cap f - rb_n f - (q - pos)))) (sub S q n) = sub S q n).
+  { rewrite Hres. apply firstn_all2. unfold len in Hl. lia. }
+  cbn [rb_fut rb_cap set]. rewrite Hl, Hcopy. replace (rb_total f + (q - pos)) with (q - cl) by lia.
+  split; [|split; reflexivity]. unfold data_ok; cbn [rb_total rb_data rb_fut rb_n rb_cap set].
+  split; [exact H1|]. split; [exact H2|]. split; [constructor; [apply consistent_slice; lia|exact H3]|].
+  split; [|split; assumption].
+  rewrite Forall_forall in *. intros r Hr. destruct (H4 r Hr) as (A1 & A2 & A3 & A4).
+  repeat split; try assumption. intros p P1 P2 P3. apply coveredb_cons. apply A4; lia.
+Qed.
+
+Lemma covered_head q n fut p : q - cl <= p < q - cl + n -> 0 <= q -> q + n <= len S -> 0 <= n ->
+  coveredb ((q - cl, sub S q n) :: fut) p = true.
+Proof.
+  intros Hp Hq Hfit Hn. unfold coveredb. cbn [existsb fst snd]. rewrite len_sub_exact by lia.
+  replace ((q - cl <=? p) && (p <? q - cl + n)) with true by lia. reflexivity.
+Qed.
+
+Lemma Forall_insert_rseg (P : rseg -> Prop) l r : Forall P l -> P r -> Forall P (insert_rseg l r).
+Proof.
+  induction l as [|x l IH]; intros H Hr; cbn [insert_rseg]; [repeat constructor; exact Hr|].
+  inversion H; subst. destruct (SMALLER _ _); constructor; auto.
+Qed.
+
+Lemma data_ok_read pos f rl R n :
+  data_ok pos f rl R -> 0 <= n ->
+  data_ok pos (f <| rb_data := skipn (Z.to_nat n) (rb_data f) |> <| rb_n := rb_n f - Z.min n (rb_n f) |>) rl
+          (R ++ firstn (Z.to_nat n) (rb_data f)).
+Proof.
+  intros (H1 & H2 & H3 & H4 & H5 & H6) Hn. unfold data_ok; cbn [rb_total rb_data rb_fut rb_n rb_cap set].
+  split; [exact H1|]. split; [rewrite <- app_assoc, firstn_skipn; exact H2|]. split; [exact H3|]. split; [exact H4|].
+  unfold len in *. rewrite skipn_length. lia.
+Qed.
+End Stream.
+
+(** ---- the invariant ---- *)
+Definition ctl_ok (S : bytes) (cl : Z) (s : sock) : Prop :=
+  nl_st (state s) = true /\ NR (Oof S cl) s /\ Gopt (Oof S cl) (support_fin_ack s) = support_fin_ack s.
+
+Definition pre0 (cl : Z) (R : bytes) (s : sock) : Prop :=
+  rcv_nxt s = 0 /\ rb_data (rbuf s) = [] /\ rb_n (rbuf s) = 0 /\ rb_fut (rbuf s) = [] /\ rb_total (rbuf s) = 0 /\
+  rlist s = [] /\ R = [] /\ cl <= rb_cap (rbuf s).
+Definition live (S : bytes) (cl : Z) (R : bytes) (s : sock) : Prop :=
+  exists pos fin, rcv_nxt s = pos + (if fin : bool then 1 else 0) /\ 0 < cl <= pos /\ pos <= len S /\ (fin = true -> pos = len S) /\
+                  data_ok S cl pos (rbuf s) (rlist s) R /\ ctl_ok S cl s.
+Definition dead (S : bytes) (cl : Z) (R : bytes) (s : sock) : Prop :=
+  support_fin_ack s = false /\ shutdown s <> SD_NONE /\ Gopt (Oof S cl) false = false /\ 0 < rcv_nxt s < NW /\ nl_st (state s) = true /\
+  rb_n (rbuf s) = len (rb_data (rbuf s)) /\ rb_n (rbuf s) <= rb_cap (rbuf s) /\
+  exists k, R ++ rb_data (rbuf s) = firstn k (Wof S cl).
+
+Record rcore (S : bytes) (cl : Z) (R : bytes) (s : sock) : Prop := {
+  rc_nowrap : len S + 2 < NW;
+  rc_cl : 0 <= cl <= len S;
+  rc_cl2 : cl <= 61440;
+  rc_fin : rcv_fin s = 0 \/ rcv_fin s = len S;
+  rc_mode : pre0 cl R s \/ live S cl R s \/ dead S cl R s }.
+
+Definition rinv (S : bytes) (cl : Z) (R : bytes) (s : sock) : Prop :=
+  rcore S cl R s /\ (rcv_nxt s = 0 -> pre_st (state s) = true).
+
+Lemma rcore_frame S cl R s s' : rcore S cl R s -> same_rcv s s' -> rcore S cl R s'.
+Proof.
+  intros [H1 H2 H3 H4 H5] (E1 & E2 & E3 & E4 & E5 & E6 & E7 & E8 & E9 & E10).
+  constructor; try assumption; try congruence.
+  destruct H5 as [P|[L|D]].
+  - left. unfold pre0 in *. rewrite E1, E2, E3. exact P.
+  - right; left. destruct L as (pos & fin & L1 & L2 & L3 & L4 & L5 & (C1 & C2 & C3)).
+    exists pos, fin. rewrite E1, E2, E3. split; [exact L1|]. split; [exact L2|]. split; [exact L3|]. split; [exact L4|].
+    split; [exact L5|]. split; [auto|]. split; [unfold NR in *; rewrite E6, E7; exact C2|rewrite E5; exact C3].
+  - right; right. unfold dead in *. rewrite E1, E2, E5. destruct D as (D1 & D2 & D3 & D4 & D5 & D6 & D7 & D8).
+    repeat split; try assumption; try lia; auto.
+Qed.
+
+Lemma rinv_frame S cl R s s' : rinv S cl R s -> same_rcv s s' -> rinv S cl R s'.
+Proof.
+  intros (H & Hz) F. split; [eapply rcore_frame; eauto|].
+  destruct F as (E1 & E2 & E3 & E4 & E5 & E6 & E7 & E8 & E9 & E10). rewrite E2. auto.
+Qed.
+
+(** ---- honest segments ---- *)
+Definition honest (S : bytes) (cl now : Z) (seg : segment) : Prop :=
+  (g_data seg <> [] ->
+     0 <= g_seq seg /\ g_seq seg + len (g_data seg) <= len S /\ g_data seg = sub S (g_seq seg) (len (g_data seg)) /\
+     (if has_flag (g_flags seg) FLAG_CTL
+      then g_seq seg = 0 /\ len (g_data seg) = cl /\ ((g_tsecr seg =? 0) || (time_diff now (g_tsecr seg) >=? 0)) = true
+      else cl <= g_seq seg)) /\
+  (has_flag (g_flags seg) FLAG_FIN = true -> g_seq seg = len S).
+
+Definition same_ctl (s s' : sock) : Prop :=
+  state s' = state s /\ support_fin_ack s' = support_fin_ack s /\ shutdown s' = shutdown s /\ rcv_fin s' = rcv_fin s /\
+  rwnd_scale s' = rwnd_scale s /\ rbuf_len s' = rbuf_len s.
+Lemma same_ctl_refl s : same_ctl s s. Proof. unfold same_ctl; repeat split; reflexivity. Qed.
+Lemma same_ctl_trans a b c : same_ctl a b -> same_ctl b c -> same_ctl a c.
+Proof. unfold same_ctl. intuition congruence. Qed.
+
+Lemma data_ok_tail S cl pos f r rl R : data_ok S cl pos f (r :: rl) R -> data_ok S cl pos f rl R.
+Proof. intros (H1 & H2 & H3 & H4 & H5). inversion H4; subst. repeat split; try assumption; apply H5. Qed.
+
+Lemma recover_rlist_rspec S cl R fuel : forall sf s ev,
+  len S + 2 < NW -> 0 <= cl <= len S ->
+  cl <= rcv_nxt s <= len S -> data_ok S cl (rcv_nxt s) (rbuf s) (rlist s) R ->
+  wp (recover_rlist fuel sf) s ev (fun _ s' _ =>
+    rcv_nxt s <= rcv_nxt s' <= len S /\ data_ok S cl (rcv_nxt s') (rbuf s') (rlist s') R /\ same_ctl s s').
+Proof.
+  induction fuel as [|f IH]; intros sf s ev NWr Hcl Hp Hd; cbn [recover_rlist].
+  { wp_prims. split; [lia|]. split; [exact Hd|apply same_ctl_refl]. }
+  wp_prims. destruct (rlist s) as [|r rl] eqn:Erl; [wp_prims; split; [lia|]; split; [rewrite Erl; exact Hd|apply same_ctl_refl]|].
+  assert (Hr : rl_ok S cl (rcv_nxt s - cl) (rb_fut (rbuf s)) r).
+  { destruct Hd as (_ & _ & _ & H4 & _). inversion H4; subst; assumption. }
+  destruct Hr as (A1 & A2 & A3 & A4).
+  rewrite SMALLER_OR_EQUAL_le by lia.
+  destruct (rs_seq r <=? rcv_nxt s) eqn:E1; [|wp_prims; split; [lia|]; split; [rewrite Erl; exact Hd|apply same_ctl_refl]].
+  rewrite (w32_small (rs_seq r + rs_len r)) by (unfold NW, M32 in *; lia).
+  rewrite LARGER_lt by lia.
+  destruct (rcv_nxt s <? rs_seq r + rs_len r) eqn:E2.
+  - rewrite (w32_small (rs_seq r + rs_len r - rcv_nxt s)) by (unfold NW, M32 in *; lia).
+    destruct (rb_commit (rbuf s) (rs_seq r + rs_len r - rcv_nxt s)) as [rb'|] eqn:Ec; [|apply wp_fault].
+    wp_prims.
+    destruct (data_ok_commit S cl Hcl (rcv_nxt s) (rbuf s) (r :: rl) R (rs_seq r + rs_len r - rcv_nxt s) rb' Hd) as (Hd' & _); try lia; try exact Ec.
+    { intros i Hi. apply A4; lia. }
+    replace (rcv_nxt s + (rs_seq r + rs_len r - rcv_nxt s)) with (rs_seq r + rs_len r) in * by lia.
+    apply data_ok_tail in Hd'.
+    match goal with |- wp _ ?s2 _ _ => set (s2' := s2) end.
+    assert (En : rcv_nxt s2' = rs_seq r + rs_len r).
+    { unfold s2'; cbn [rcv_nxt set]. rewrite w32_small by (unfold NW, M32 in *; lia). lia. }
+    eapply wp_conseq; [apply (IH sfImmediateAck s2' ev NWr Hcl)|].
+    + rewrite En. lia.
+    + rewrite En. exact Hd'.
+    + cbv beta. intros _ s' _ (B1 & B2 & B3). rewrite En in B1.
+      split; [lia|]. split; [exact B2|]. eapply same_ctl_trans; [|exact B3]. unfold same_ctl, s2'; cbn; repeat split; reflexivity.
+  - wp_prims. apply data_ok_tail in Hd.
+    match goal with |- wp _ ?s2 _ _ => set (s2' := s2) end.
+    eapply wp_conseq; [apply (IH sf s2' ev NWr Hcl)|].
+    + exact Hp.
+    + exact Hd.
+    + cbv beta. intros _ s' _ (B1 & B2 & B3). change (rcv_nxt s2') with (rcv_nxt s) in B1. split; [lia|]. split; [exact B2|].
+      eapply same_ctl_trans; [|exact B3]. unfold same_ctl, s2'; cbn; repeat split; reflexivity.
+Qed.
+
+(** ---- the connect message's options, in each mode ---- *)
+Lemma parse_options_modes S cl R s ev :
+  rcore S cl R s ->
+  wp (parse_options (Oof S cl)) s ev (fun _ s1 _ =>
+    rcore S cl R s1 /\ state s1 = state s /\ rcv_nxt s1 = rcv_nxt s /\ (NR (Oof S cl) s1 \/ 61440 < rb_n (rbuf s)) /\
+    Gopt (Oof S cl) (support_fin_ack s1) = support_fin_ack s1).
+Proof.
+  intros [H1 H2 H3 H4 H5]. eapply wp_conseq; [apply parse_options_rspec|]. cbv beta.
+  intros _ s1 _ (Hv & Hnr & Hout).
+  assert (Hg : Gopt (Oof S cl) (support_fin_ack s1) = support_fin_ack s1) by (rewrite Hv; apply Gopt_idem).
+  assert (Hst : state s1 = state s /\ rcv_nxt s1 = rcv_nxt s /\ rcv_fin s1 = rcv_fin s /\ rlist s1 = rlist s /\ shutdown s1 = shutdown s).
+  { destruct Hout as [(A1 & A2 & A3 & A4 & A5 & A6 & A7 & A8)|(_ & (B1 & B2 & B3 & B4 & B5 & B6 & B7 & B8))]; repeat split; assumption. }
+  destruct Hst as (St & Rn & Rf & Rl & Sh).
+  split; [|repeat split; assumption].
+  constructor; try assumption; [rewrite Rf; exact H4|].
+  destruct H5 as [P|[L|D]].
+  - left. unfold pre0 in *. rewrite Rn, Rl. destruct P as (P1 & P2 & P3 & P4 & P5 & P6 & P7 & P8).
+    destruct Hout as [(A1 & _)|(_ & (B1 & _))]; [rewrite A1; repeat split; assumption|].
+    rewrite B1; cbn. repeat split; assumption.
+  - right; left. destruct L as (pos & fin & L1 & L2 & L3 & L4 & L5 & (C1 & C2 & C3)).
+    destruct Hout as [(A1 & A2 & A3 & A4 & A5 & A6 & _)|(N & _)]; [|contradiction].
+    exists pos, fin. unfold ctl_ok. rewrite Rn, Rl, A1, St. rewrite C3 in Hv.
+    split; [exact L1|]. split; [exact L2|]. split; [exact L3|]. split; [exact L4|]. split; [exact L5|].
+    split; [exact C1|]. split; [unfold NR in *; rewrite A5, A6; exact C2|exact Hg].
+  - right; right. destruct D as (D1 & D2 & D3 & D4 & D5 & D6 & D7 & D8). unfold dead.
+    rewrite Rn, Sh, St. rewrite D1, D3 in Hv.
+    split; [exact Hv|]. split; [exact D2|]. split; [exact D3|]. split; [exact D4|]. split; [exact D5|].
+    destruct Hout as [(A1 & _)|(_ & (B1 & B2 & _))]; [rewrite A1; repeat split; assumption|].
+    rewrite B1; cbn. repeat split; try assumption.
+Qed.
+
+(** ---- states are left alone by (re)transmissions ---- *)
+Lemma shrink_mss_state fuel : forall s nT, state (fst (shrink_mss fuel s nT)) = state s.
+Proof.
+  induction fuel as [|f IH]; intros s nT; cbn [shrink_mss]; [reflexivity|].
+  destruct (_ =? 0); [reflexivity|]. destruct (_ <? nT); cbn [fst]; [reflexivity|]. rewrite IH. reflexivity.
+Qed.
+
+Lemma packet_state seq flags offset ln now s ev : wp (packet seq flags offset ln now) s ev (fun _ s' _ => state s' = state s).
+Proof. eapply wp_conseq; [apply packet_spec|]. cbv beta. intros _ s' _ (_ & E & _). exact E. Qed.
+
+Lemma transmit_loop_state fuel : forall i nT now s ev, wp (transmit_loop fuel i nT now) s ev (fun _ s' _ => state s' = state s).
+Proof.
+  induction fuel as [|f IH]; intros i nT now s ev; cbn [transmit_loop]; [apply wp_fault|].
+  wp_prims. destruct (nth_error _ _); [|apply wp_fault]. wp_prims.
+  eapply wp_bind_spec; [apply packet_state|]. cbv beta. intros w s1 ev1 E1. destruct w; wp_prims; try exact E1.
+  pose proof (shrink_mss_state 12 s1 nT) as Hs. destruct (shrink_mss 12 s1 nT) as [s2 [m|]]; cbn [fst] in Hs; wp_prims.
+  - eapply wp_conseq; [apply IH|]. cbv beta. intros _ s3 _ E3. congruence.
+  - congruence.
+Qed.
+
+Lemma transmit_state i now s ev : wp (transmit i now) s ev (fun _ s' _ => state s' = state s).
+Proof.
+  unfold transmit. wp_prims. destruct (nth_error _ _) as [g|]; [|apply wp_fault].
+  destruct (_ >=? _); [wp_prims; reflexivity|].
+  eapply wp_bind_spec; [apply transmit_loop_state|]. cbv beta. intros [status nT] s1 ev1 E1.
+  destruct (negb (status =? 0)); [wp_prims; exact E1|]. wp_prims.
+  match goal with |- wp (bind ?m _) _ _ _ => set (chk := m) end.
+  assert (Hchk : forall Q : unit -> sock -> list event -> Prop, Q tt s1 ev1 -> wp chk s1 ev1 Q).
+  { intros Q HQ. unfold chk. destruct (_ =? 0); wp_prims; exact HQ. }
+  eapply wp_bind_spec; [apply (Hchk (fun _ s' ev' => s' = s1 /\ ev' = ev1)); split; reflexivity|]. cbv beta. intros _ s2 ev2 (-> & ->).
+  wp_prims. exact E1.
+Qed.
+
+(** ---- trimming an honest segment to the receive window keeps it honest ---- *)
+Section Trim.
+Variable S : bytes.
+Definition slice_at (q : Z) (d : bytes) : Prop := 0 <= q /\ q + len d <= len S /\ d = sub S q (len d).
+
+Lemma slice_skipn q d k : slice_at q d -> 0 <= k <= len d -> slice_at (q + k) (skipn (Z.to_nat k) d).
+Proof.
+  intros (H1 & H2 & H3) Hk. assert (Hl : len (skipn (Z.to_nat k) d) = len d - k) by (unfold len in *; rewrite skipn_length; lia).
+  unfold slice_at. rewrite Hl. split; [lia|]. split; [lia|].
+  rewrite H3 at 1. unfold sub. rewrite <- (firstn_skipn (Z.to_nat k) (firstn (Z.to_nat (len d)) (skipn (Z.to_nat q) S))) at 1.
+  rewrite skipn_app. rewrite firstn_firstn, firstn_length, skipn_length.
+  assert (Hm : Nat.min (Z.to_nat k) (Z.to_nat (len d)) = Z.to_nat k) by lia. rewrite Hm.
+  rewrite skipn_all2 by (rewrite firstn_length, skipn_length; unfold len in *; lia). cbn [app].
+  replace (Z.to_nat k - Nat.min (Z.to_nat k) (length S - Z.to_nat q))%nat with 0%nat by (unfold len in *; lia).
+  cbn [skipn]. rewrite skipn_firstn_comm, skipn_skipn'. f_equal; [lia|f_equal; lia].
+Qed.
+
+Lemma slice_firstn q d k : slice_at q d -> 0 <= k <= len d -> slice_at q (firstn (Z.to_nat k) d).
+Proof.
+  intros (H1 & H2 & H3) Hk. assert (Hl : len (firstn (Z.to_nat k) d) = k) by (unfold len in *; rewrite firstn_length; lia).
+  unfold slice_at. rewrite Hl. split; [lia|]. split; [lia|].
+  rewrite H3 at 1. unfold sub. rewrite firstn_firstn. f_equal. lia.
+Qed.
+
+Lemma slice_nil q : 0 <= q <= len S -> slice_at q [].
+Proof. intros H. unfold slice_at. cbn. split; [lia|]. split; [lia|]. unfold sub. reflexivity. Qed.
+End Trim.
+
+(** ---- trimming ---- *)
+Definition trimL (q : Z) (d : bytes) (rn : Z) : Z * bytes :=
+  if SMALLER q rn then (if w32 (rn - q) <? len d then (w32 (q + w32 (rn - q)), skipn (Z.to_nat (w32 (rn - q))) d) else (q, []))
+  else (q, d).
+
+Lemma trimL_ok S q d rn : len S + 2 < NW -> 0 <= rn < NW -> (d <> [] -> slice_at S q d) ->
+  let r := trimL q d rn in
+  (snd r = [] \/ (slice_at S (fst r) (snd r) /\ rn <= fst r /\ q <= fst r /\ fst r + len (snd r) = q + len d /\ snd r <> [])) /\
+  (q = rn -> r = (q, d)) /\ (d <> [] -> q + len d <= rn -> snd r = []).
+Proof.
+  intros NWr Hrn Hs. unfold trimL. destruct d as [|x d'] eqn:Ed.
+  { cbn [len length Z.of_nat skipn]. assert (E : (w32 (rn - q) <? 0) = false) by (unfold w32, M32; lia). rewrite E.
+    split; [left; destruct (SMALLER q rn); reflexivity|]. split; [|congruence].
+    intros ->. unfold SMALLER, LARGER. replace (rn - rn - 1) with (-1) by lia. reflexivity. }
+  rewrite <- Ed in *. assert (Hne : d <> []) by (rewrite Ed; discriminate). destruct (Hs Hne) as (H1 & H2 & H3).
+  assert (Hl : 0 < len d) by (rewrite Ed; unfold len; cbn [length]; lia).
+  rewrite SMALLER_lt by lia. destruct (q <? rn) eqn:E.
+  - rewrite (w32_small (rn - q)) by (unfold NW, M32 in *; lia). destruct (rn - q <? len d) eqn:E2; cbn [fst snd].
+    + rewrite w32_small by (unfold NW, M32 in *; lia). replace (q + (rn - q)) with rn by lia.
+      split; [right|split; [intros; lia|intros _ Hx; lia]].
+      pose proof (slice_skipn S q d (rn - q) (Hs Hne)) as Hk. replace (q + (rn - q)) with rn in Hk by lia.
+      split; [apply Hk; lia|]. split; [lia|]. split; [lia|]. split.
+      * unfold len in *. rewrite skipn_length. lia.
+      * intros E0. apply (f_equal (@length Z)) in E0. rewrite skipn_length in E0. unfold len in *. cbn [length] in E0. lia.
+    + split; [left; reflexivity|]. split; [intros; lia|reflexivity].
+  - cbn [fst snd]. split; [right; split; [exact (Hs Hne)|repeat split; try lia; exact Hne]|]. split; [reflexivity|intros _ Hx; lia].
+Qed.
+
+Definition trimR (seq1 : Z) (data1 : bytes) (rn avail : Z) : bytes :=
+  if w32 (seq1 + len data1 - rn) >? avail
+  then (if w32 (seq1 + len data1 - rn - avail) <? len data1
+        then firstn (Z.to_nat (len data1 - w32 (seq1 + len data1 - rn - avail))) data1 else [])
+  else data1.
+
+Lemma trimR_ok S seq1 data1 rn avail : slice_at S seq1 data1 ->
+  slice_at S seq1 (trimR seq1 data1 rn avail) /\
+  (0 <= seq1 + len data1 - rn <= avail -> seq1 + len data1 - rn < M32 -> trimR seq1 data1 rn avail = data1).
+Proof.
+  intros Hs. unfold trimR. split.
+  - destruct (_ >? avail); [|exact Hs]. destruct (_ <? len data1) eqn:E.
+    + apply slice_firstn; [exact Hs|]. assert (0 <= w32 (seq1 + len data1 - rn - avail)) by (unfold w32, M32; lia). lia.
+    + apply slice_nil. destruct Hs as (H1 & H2 & _). unfold len in *. lia.
+  - intros H1 H2. rewrite w32_small by lia. replace (seq1 + len data1 - rn >? avail) with false by lia. reflexivity.
+Qed.
+
+Definition rfx (seg : segment) (s1 : sock) : bool :=
+  negb (rcv_nxt s1 =? 0) && (g_seq seg =? rcv_nxt s1) && (len (g_data seg) <=? rb_remaining s1)
+  && (w32 (rcv_nxt s1 + len (g_data seg)) =? rcv_fin s1).
+Lemma rfx_same seg a b : same_rcv a b ->
+  (if support_fin_ack a then rfx seg a else false) = (if support_fin_ack b then rfx seg b else false).
+Proof.
+  intros (E1 & E2 & E3 & E4 & E5 & _). unfold rfx, rb_remaining. rewrite E1, E2, E4, E5. reflexivity.
+Qed.
+
+(** ---- process ---- *)
+Definition lsn_st (st : tstate) : bool := match st with LISTEN | SYN_SENT => true | _ => false end.
+Definition trans_ok (S : bytes) (cl : Z) (seg : segment) (s : sock) : Prop :=
+  has_flag (g_flags seg) FLAG_CTL = true /\ g_data seg <> [] /\ ctl_ok S cl s.
+Definition mid (S : bytes) (cl : Z) (R : bytes) (seg : segment) (s : sock) : Prop :=
+  rcore S cl R s /\
+  (rcv_nxt s = 0 -> (lsn_st (state s) = true /\ has_flag (g_flags seg) FLAG_CTL = false) \/ trans_ok S cl seg s).
+
+Lemma mid_frame S cl R seg s s' :
+  mid S cl R seg s -> same_rcv s s' -> (lsn_st (state s) = true -> state s' = state s) -> mid S cl R seg s'.
+Proof.
+  intros (H & Hz) F Hst. split; [eapply rcore_frame; eauto|].
+  destruct F as (E1 & E2 & E3 & E4 & E5 & E6 & E7 & E8 & E9 & E10). rewrite E2. intros Z0.
+  destruct (Hz Z0) as [(P1 & P2)|(T1 & T2 & C1 & C2 & C3)]; [left; rewrite (Hst P1); auto|right].
+  split; [exact T1|]. split; [exact T2|]. split; [auto|]. split; [unfold NR in *; rewrite E6, E7; exact C2|rewrite E5; exact C3].
+Qed.
+
+Lemma rinv_mid S cl R seg s :
+  rinv S cl R s -> state s <> CLOSED -> has_flag (g_flags seg) FLAG_CTL = false -> mid S cl R seg s.
+Proof.
+  intros (H & Hz) Hc Hf. split; [exact H|]. intros Z0. left. split; [|exact Hf].
+  specialize (Hz Z0). destruct (state s); try discriminate Hz; try reflexivity. congruence.
+Qed.
+
